@@ -160,7 +160,7 @@ fn sub_areas(w: u32, h: u32, all: bool) -> Vec<(i32, i32, u32, u32)> {
 fn cases(tier: Tier, part: &str) -> Vec<ImgCase> {
     let mut v = vec![];
     let t = tier.is_thorough();
-    let (mw, mh) = tier.pick((5, 4), (9, 6));
+    let (mw, mh) = tier.pick((5, 4), (10, 7));
     let bpps: Vec<u8> = match part {
         "sub-byte" => vec![1, 2, 4],
         _ => vec![8, 16, 24, 32],
@@ -217,7 +217,7 @@ fn run_part(run: &mut Run) {
         "sub-byte" | "bytes" => {
             run.sweep_vec(
                 "images",
-                "raw widths x 2 data orders x sizes 0..=5x0..=4 (thorough 9x6) x byte contents (all contents for tiny images, else 3 patterns incl. non-zero padding bits) x sub-areas with corners in [-1,w+1]x[-1,h+1] x nested areas x Image::new/with_center; each drawn on the draw_iter-only, the native and the draining target",
+                "raw widths x 2 data orders x sizes 0..=5x0..=4 (thorough 10x7) x byte contents (all contents for tiny images, else 3 patterns incl. non-zero padding bits) x sub-areas with corners in [-1,w+1]x[-1,h+1] x nested areas x Image::new/with_center; each drawn on the draw_iter-only, the native and the draining target",
                 || cases(tier, &part),
                 check_img,
             );
